@@ -523,11 +523,12 @@ void f_replace_string (void) {
                   if (*src == *pattern)
                     {
                       cur++;
-                      if (cur < first)
-                        continue;
-                      *src = *replace;
-                      if (cur > last)
-                        break;
+                      if (cur >= first)
+                        {
+                          *src = *replace;
+                          if (cur == last)
+                            break;
+                        }
                     }
                   src++;
                 }
